@@ -182,6 +182,13 @@ func c02Consul(c *ctx) {
 			for m := 1 + r.Intn(3); m > 0; m-- {
 				curMan = append(curMan, refmodel.Def{Cmd: "add", Service: fmt.Sprintf("man%d", r.Intn(3)), Src: fmt.Sprintf("m%d.test/", r.Intn(3)), Dst: fmt.Sprintf("http://10.7.0.%d:80/", 1+r.Intn(9)), Tags: []string{fmt.Sprintf("step=%d", i)}})
 			}
+			// the other two commands: a del that takes one of the services out again, a weight for a route that exists
+			if r.Intn(2) == 0 {
+				curMan = append(curMan, refmodel.Def{Cmd: "del", Service: fmt.Sprintf("man%d", r.Intn(3))})
+			}
+			if r.Intn(2) == 0 {
+				curMan = append(curMan, refmodel.Def{Cmd: "weight", Service: curMan[0].Service, Src: curMan[0].Src, Weight: 0.5})
+			}
 			var lines []string
 			for _, d := range curMan {
 				lines = append(lines, d.Text())
